@@ -59,6 +59,8 @@ def main(argv=None):
             coherence.check(run, prog, pid)
             from . import sigmodel
             sigmodel.report_discrepancies(run, prog, pid)
+            from . import memo
+            memo.check(run, prog, pid)
             if args.tier == "thorough" and hasattr(mod, "thorough"):
                 mod.thorough(run, prog)
         except AnalysisError as e:
